@@ -217,6 +217,29 @@ func run(c *rig.Ctx) {
 				return
 			}
 		}
+		// the same events again with nothing read or selected in between (events may not be
+		// merged or reordered by whatever sits between the keys and the register)
+		m2 := rig.MustNew(rom, rig.Opts{})
+		if i%2 == 1 {
+			m2.Mem.Write(0xff00, uint8(r.Intn(4))<<4)
+		}
+		st := jstate{}
+		x = i
+		for k := 0; k < L; k++ {
+			e := events[x%16]
+			x /= 16
+			applyReal(m2, e)
+			st = st.apply(e)
+		}
+		for _, sel := range []uint8{0x00, 0x10, 0x20, 0x30} {
+			m2.Mem.Write(0xff00, sel)
+			st.sel = sel
+			if got := m2.Mem.Read(0xff00); got != st.read() {
+				c.Violate("batched-sequence-"+classOf(st), fmt.Sprintf("after %v with no JOYP access in between, select %02X: JOYP=%02X want %02X", hist, sel, got, st.read()), map[string]any{"events": fmt.Sprint(hist)})
+				return
+			}
+		}
+		c.Count("batched_sequence_cases", 1)
 		c.Exact(1)
 		c.Count("sequence_cases", 1)
 	})
